@@ -26,17 +26,17 @@ PROPS = {
                  'Go maps modelled as association lists; pointers below 2^63; keyEqual compares keyOf(pointer) with the key'],
     ),
     'C16': dict(
-        modules=['NitroVerif.Props.C16'],
+        modules=['NitroVerif.Props.C16', 'NitroVerif.Props.C16abs'],
         iruns=[('barrier', gens.gen_barrier, 150, 6000)],
         level='proof',
-        level_text='C16_barrier_safety, C16_grant, C16_destructor_call, C16_released_before_destructor are proved in Lean for every schedule and any number of threads on a small-step model with one program counter per shared-memory step of access_barrier.go; the model is tied to the source by regenerated thresholds/skeletons and by steered schedules on the real AccessBarrier validated step by step against the model',
+        level_text='C16_barrier_safety, C16_grant, C16_destructor_call, C16_released_before_destructor are proved in Lean for every schedule and any number of threads on a small-step model with one program counter per shared-memory step of access_barrier.go; the model is tied to the source by regenerated thresholds/skeletons and by steered schedules on the real AccessBarrier validated step by step against the model. Relation to the abstract barrier used by the MVCC model (Props/C16abs): C16_refines_abstract_barrier_partial (every step of every thread maps to at most one action — acquire, release, flush, destruct — of a lazy abstract barrier, except the late grant), C16_late_grant_characterised / C16_late_grant_witness / C16_late_grant_no_abstract_action (an Acquire that loaded the session before a concurrent FL_SWAP is granted on the session being closed: harmless for safety, but no state abstraction maps it to an atomic flush), C17_abstract_eager_at_quiescence',
         trusted=['Lean 4 kernel', 'tools/gofacts translation of access_barrier.go thresholds, tests and operation skeletons',
                  'steered schedules (cooperative scheduler over verif yield points) on the real AccessBarrier, each trace validated against the model',
                  'each sync/atomic operation is one sequentially consistent step; int32 overflow excluded (fewer than 2^30 simultaneous accessors of one session)',
                  'the internal free queue (a skiplist with an inactive barrier) is modelled as a list sorted by seqno'],
     ),
     'C17': dict(
-        modules=['NitroVerif.Props.C17'],
+        modules=['NitroVerif.Props.C17', 'NitroVerif.Props.C16abs'],
         iruns=[('barrier', gens.gen_barrier, 150, 6000)],
         runs=[('mvcc', gens.gen_mvcc_mm, 60, 4000)],
         keep_prefix=1,
@@ -133,12 +133,12 @@ PROPS = {
                  'linearizability is proved of the model (one step per yield-point segment); interleavings inside a segment of the real code are not explored'],
     ),
     'C14': dict(
-        modules=['NitroVerif.Props.C14', 'NitroVerif.Props.C14c'],
+        modules=['NitroVerif.Props.C14', 'NitroVerif.Props.C14c', 'NitroVerif.Props.C14q'],
         runs=[('skipseq', gens.gen_skipseq, 300, 20000), ('skipseq', gens.gen_builder, 150, 8000),
               ('mvcc', gens.gen_backup, 40, 2000), ('mvcc', gens.gen_mvcc_mm, 40, 4000)],
         iruns=[('skipconc', gens.gen_skipconc, 150, 5000)],
         level='proof',
-        level_text='C14_wf_sequential and C14_wf_assemble (full well-formedness of all levels and statistics after every sequential history and after Assemble of any segments) proved on the pointer-level heap; C14_level0_chain_partial (level-0 chain sorted, reaches tail, contains every unmarked node) for every reachable state of the concurrent model. PARTIAL: upper levels and statistics after concurrent histories are checked by the walk after every steered run (no marked node reachable, sub-sequence property, counters), not proved; C14_upper_level_unfixed_witness is the kernel-checked witness of the defect fixed in Insert4',
+        level_text='C14_wf_sequential and C14_wf_assemble (full well-formedness of all levels and statistics after every sequential history and after Assemble of any segments) proved on the pointer-level heap; for the CONCURRENT model (CAS granularity, every interleaving, any number of threads; Props/C14q): C14_levels_sorted (every reachable state, every level: the chain from the head reaches the tail, keys strictly ascending, every node published and of sufficient height), C14_levels_sublist (the part of level l unmarked at level l-1 is a sub-sequence of level l-1; a node unmarked at level l is on every lower chain), C14_walk_is_chain (the walk the driver prints is that chain), and at QUIESCENCE C14_quiescent_no_marked_linked (no deleted node is on the chain of any level: every marked node still linked is charged to an operation in flight — the two repairs of Insert4 are what makes the invariant inductive; C14_upper_level_unfixed_witness is the kernel-checked witness without them) and C14_quiescent_live_fully_linked (every live node is linked at every level up to its height); C14_levels_sublist_unmarked0_refuted: the sub-sequence claim in terms of the level-0 mark is false in transient states (a Delete parked before its level-0 mark). PARTIAL only in this: the statistics counters after concurrent histories (node count, per-level counts, soft deletes, allocations minus frees) are compared with the walk after every steered run, not proved (per-segment counter lemmas exist, the counting invariant is not finished)',
         trusted=['Lean 4 kernel', 'tools/gofacts translation of the accounting conditions',
                  'walk of all levels and raw statistics after every sequential operation and every steered concurrent run',
                  'with Go-managed memory node_frees stays 0 by construction (by-design finding D20): allocs - frees is compared with the number of successful inserts there, and with the node count in user-managed mode'],
@@ -178,13 +178,13 @@ PROPS = {
                  'a crash keeps exactly the file-system effects issued so far (no torn writes below the granularity of a write call, no reordering by the OS)'],
     ),
     'C04': dict(
-        modules=['NitroVerif.Props.C04', 'NitroVerif.Props.C16', 'NitroVerif.Props.C13c'],
+        modules=['NitroVerif.Props.C04', 'NitroVerif.Props.C16', 'NitroVerif.Props.C13c', 'NitroVerif.Props.C16abs', 'NitroVerif.Props.C16absMvcc', 'NitroVerif.Props.C04skip'],
         iruns=[('mvccconc', gens.gen_mvccconc, 120, 5000), ('barrier', gens.gen_barrier, 80, 3000), ('skipconc', gens.gen_skipconc, 80, 3000),
                ('skipconc', gens.gen_skipconc_free, 80, 3000)],
         runs=[('mvcc', gens.gen_mvcc_mm, 150, 10000), ('mvcc', gens.gen_backup_stress, 12, 400)],
         keep_prefix=1,
         level='proof',
-        level_text='C04_no_use_after_free, C04_references_valid, C04_no_double_free, C04_freed_not_linked, C04_one_owner are proved for every schedule of writers, readers, snapshot closes, collection jobs and free jobs on the small-step MVCC model with blocks and an abstract access barrier (acquire/release/flush atomic, destructors in session order once all earlier accessors left — which is what C16/C17 prove of the real barrier, included in this check). PARTIAL in this sense: the composition "barrier theorem + atomic skiplist operations (C13) imply the abstract model" is argued, not mechanised, and machine-level memory safety of unsafe pointer arithmetic is outside any model. Every memory-managed run uses the guard allocator (double/invalid free at the call, poison re-verified), the steered engine drives the reclamation pipeline job by job',
+        level_text='C04_no_use_after_free, C04_references_valid, C04_no_double_free, C04_freed_not_linked, C04_one_owner are proved for every schedule of writers, readers, snapshot closes, collection jobs and free jobs on the small-step MVCC model with blocks and an abstract access barrier (acquire/release/flush atomic, destructors in session order once all earlier accessors left — which is what C16/C17 prove of the real barrier, included in this check). PARTIAL in this sense: the composition "barrier theorem + atomic skiplist operations (C13) imply the abstract model" is mechanised only in part — Props/C16absMvcc: the eager barrier of the MVCC model is the lazy abstract barrier followed by destructs to exhaustion (C16abs_mvcc_eager_is_lazy_then_destructs, C16abs_mvcc_moves_are_lazy_runs), Props/C16abs: the real barrier model refines the lazy barrier step by step except for the late grant, and is a fixed point of eager cleanup at quiescence; Props/C04skip: a model of the skiplist at CAS granularity WITH real frees (SkipFree = M5 + abstract barrier + freed set) in which the open defect D23 is a kernel-checked run (C04_skip_relink_uaf_witness: the 31-action witness ends in a dereference of a freed node), with C04_skip_pool_step, C04_skip_freed_prefix, C04_skip_freed_were_deleted_partial, C04_skip_no_double_free_partial (under a stated hypothesis); the no-use-after-free theorem for runs without the D23 overlap is stated, not proved — and machine-level memory safety of unsafe pointer arithmetic is outside any model. Every memory-managed run uses the guard allocator (double/invalid free at the call, poison re-verified), the steered engine drives the reclamation pipeline job by job',
         trusted=['Lean 4 kernel', 'tools/gofacts skeletons of DeleteNode/Delete2/collectionWorker/freeWorker and barrier guards',
                  'steered schedules on the real Nitro (user-managed memory, guard allocator), every trace validated against the model, allocator books compared after shutdown',
                  'abstract barrier justified by C16/C17; skiplist operations atomic justified by C13; neither composition is mechanised',
